@@ -368,7 +368,8 @@ def run(ctx):
                     csrc = set()
                     for o_ in caps[0].rv.ops:
                         csrc |= sources(dan, o_, deep=True)
-                    okarg = any(x[0] == 'field' and x[1].endswith('ClientWrapper.statement_cache') for x in csrc) and any(x[0] == 'call' and (x[1].endswith('Arc::downgrade') or x[1].endswith('Arc::as_ptr')) for x in csrc)
+                    # (as a weak handle, a raw address or a plain reference into the Arc - all name the same allocation)
+                    okarg = any(x[0] == 'field' and x[1].endswith('ClientWrapper.statement_cache') for x in csrc)
     ctx.ob('R16.6', 'the registry drops exactly the pointer-equal entries', okr, ctx.where(dt), '', construct='registry:detach')
     ctx.ob('R16.6', 'Manager::detach forwards the object\'s cache to the registry', okarg, ctx.where(dt), '', construct='detach:forward-arg')
     for fn, inner in (('clear', SC + '::clear'), ('remove', SC + '::remove')):
@@ -378,7 +379,10 @@ def run(ctx):
         ups_ = [blk for blk in b.blocks if blk.term.kind == 'call' and not blk.cleanup and any(n.endswith('Weak::upgrade') for n in blk.term.callee_names())]
         inn = [blk for blk in b.blocks if blk.term.kind == 'call' and not blk.cleanup and blk.term.rcallee and strip_generics(blk.term.rcallee) == inner]
         lossy = any(blk.term.kind == 'call' and any(n.split('::')[-1] in ('skip', 'take', 'step_by', 'rev', 'filter', 'skip_while', 'take_while', 'nth', 'last', 'find', 'find_map', 'any', 'all') and 'iter' in n.lower() for n in blk.term.callee_names()) for blk in b.blocks)
-        ok = len(its) == 1 and len(ups_) == 1 and len(inn) == 1 and in_cycle(ban, inn[0].idx) and not lossy
+        fm0 = [blk for blk in b.blocks if blk.term.kind == 'call' and not blk.cleanup and any(n.endswith('Iterator::filter_map') for n in blk.term.callee_names()) and
+               any(a.kind == 'const' and a.const.get('fn') and strip_generics(a.const.get('rfn') or a.const['fn']).endswith('Weak::upgrade') for a in blk.term.args)]
+        # an explicit loop that upgrades each handle, or a loop over `.filter_map(Weak::upgrade)`
+        ok = len(its) == 1 and (len(ups_) == 1 or (not ups_ and len(fm0) == 1)) and len(inn) == 1 and in_cycle(ban, inn[0].idx) and not lossy
         if not ok and not lossy and not its:
             # the same walk as an iterator chain: `.iter().filter_map(Weak::upgrade).for_each(|cache| cache.<inner>(..))`
             fm = [blk for blk in b.blocks if blk.term.kind == 'call' and not blk.cleanup and any(n.endswith('Iterator::filter_map') for n in blk.term.callee_names()) and
